@@ -666,6 +666,11 @@ class Discharger:
                 bits = {"u8": 8, "i8": 8, "u16": 16, "i16": 16, "u32": 32, "i32": 32, "u64": 64, "i64": 64, "usize": 64, "isize": 64}.get(self.operand_ty(mir, t["ops"][0]) or "", None)
                 if amount[0] == "int" and bits and 0 <= amount[1] < bits:
                     return "constant shift amount within the operand width"
+                if amount[0] == "const" and bits and len(amount) > 2:
+                    # a const generic parameter: every value the crates instantiate it with
+                    vals = self.const_param_values(s.body, amount[2])
+                    if vals and all(0 <= v_ < bits for v_ in vals):
+                        return "shift amount is a const generic parameter instantiated with %s only: within the operand width" % sorted(vals)
                 if amount[0] == "discr" and bits:
                     adt = self.unit.adts.get(self.unit.qualify(amount[2], self.unit.crate)) or self.unit.adts.get(amount[2])
                     if adt is not None:
@@ -1033,7 +1038,7 @@ class Discharger:
                     and not any(x[0] == "var" for x in sym.walk(inner)):
                 # the same (single-assignment) call result: an immutable slice value (or shared sub-slices of one)
                 return True
-            if view[0] == "call" and view[1].startswith("core::") and view[1].split("::")[-1] in ("find", "rfind") and all(len(S.defs_of(x[1])) == 1 for x in sym.walk(inner) if x[0] == "var"):
+            if view[0] == "call" and view[1].startswith("core::") and view[1].split("::")[-1] in ("find", "rfind", "next", "next_back") and all(len(S.defs_of(x[1])) == 1 for x in sym.walk(inner) if x[0] == "var"):
                 # the item a search handed out: one shared reference, obtained once (the iterator searched is a temporary)
                 return True
             if any(x[0] == "call" for x in sym.walk(inner)):
